@@ -71,6 +71,7 @@ type cdCase struct {
 	Sigmas [][2]int64 `json:"sigmas"`
 	Zs     [][2]int64 `json:"zs"`
 	Vs     [][2]int64 `json:"vs"`
+	VWalk  [][2]int64 `json:"vwalk"`
 }
 
 func cdistReplay(in io.Reader, raw bool, args []string) (*Summary, error) {
@@ -180,6 +181,23 @@ func cdistReplay(in io.Reader, raw bool, args []string) (*Summary, error) {
 					if diff := d.CDF(x+w) - d.CDF(x); math.Abs(integ-diff) > 1e-9 && !(v < 1 && math.Abs(x) < 1) {
 						sum.viol("PDF-CDF-consistency", c, "TDist{%v}: integral over [%v,%v]=%.12g, CDF difference %.12g", v, x, x+w, integ, diff)
 					}
+				}
+			}
+		}
+		// the walk over V: density and distribution function at a few fixed points for every V
+		for _, vr := range cc.VWalk {
+			v := float64(vr[0]) / float64(vr[1])
+			d := stats.TDist{V: v}
+			lg1, _ := math.Lgamma((v + 1) / 2)
+			lg2, _ := math.Lgamma(v / 2)
+			for _, x := range []float64{0, 1.3, -2.75} {
+				sum.Checks++
+				wp := math.Exp(lg1 - lg2 - 0.5*math.Log(v*math.Pi) - (v+1)/2*math.Log1p(x*x/v))
+				if gp := d.PDF(x); !closeF(gp, wp, 1e-9, 1e-9) || gp < 0 || math.IsInf(gp, 0) {
+					sum.viol("TDist.PDF", c, "TDist{%v}.PDF(%v)=%.15g want %.15g", v, x, gp, wp)
+				}
+				if got, want := d.CDF(x), tcdf(v, x); !closeF(got, want, 1e-9, 0) {
+					sum.viol("TDist.CDF-accuracy", c, "TDist{%v}.CDF(%v)=%.15g, independent value %.15g", v, x, got, want)
 				}
 			}
 		}
